@@ -237,6 +237,11 @@ func c08mutateBoc(b []byte, f *run.Fault) []byte {
 	case "boc-fill":
 		out = bocFillCell(out, f.A, f.B)
 	}
+	if f.Kind != "boc-truncate" && f.C%4 != 0 {
+		// three quarters of the mutated containers get a fresh checksum: the mutation reaches the cell parser and the
+		// decoders behind it instead of stopping at the CRC
+		out = bocFixCRC(out)
+	}
 	return out
 }
 
